@@ -279,6 +279,7 @@ pub fn observe_eq(w: &mut World, pairs: &[(usize, usize)], ignore_lists: &[Vec<(
             "adnp": x.advanced_deep_equal(ha, hb, |n| !x.is_processing_instruction(n), |p, q| p == q),
             "adet": x.advanced_deep_equal(ha, hb, |n| x.is_element(n) || x.is_text(n), trim),
             "adnb": x.advanced_deep_equal(ha, hb, |n| !(x.is_element(n) && x.element(n).unwrap().name() == bname), |p, q| p == q),
+            "adnv": x.advanced_deep_equal(ha, hb, |_| true, |_, _| false),
             "se": x.shallow_equal(ha, hb),
             "sei": sei,
         }));
